@@ -172,14 +172,4 @@ theorem src_update_now (h : TagAttrDict_update_available = true) (h1 : normalize
       = embRes embAttrs (attrsUpdate cfgNow cur (if kw.isEmpty then args else args ++ [kw])) :=
   src_update h h1 h2 h3 h4 h5 h6 cfgNow src_tables_ok.2.2 src_tables_ok.1 src_tables_ok.2.1 cur args kw
 
-/-- non-vacuity: on the current tree every function of this file is translated -/
-theorem src_attrs_available :
-    normalize_attr_name_available = true ∧ normalize_attr_value_available = true
-      ∧ TagAttrDict_setitem_available = true ∧ TagAttrDict_update_available = true := by decide
-
-example : (match TagAttrDict_update (globalsOf cfgNow) (.dict [])
-      (.tuple [.dict [("class_".toList, .str "a\"b".toList)], .dict [("class".toList, .html "x".toList)]]) (.dict []) with
-    | .ok (.dict [(k, .html v)]) => k == "class".toList && v == "a&quot;b x".toList
-    | _ => false) = true := by decide +kernel
-
 end HtmlVerif.SrcTie
